@@ -6,7 +6,9 @@ cd /verif
 for d in seeded/*/; do
   id=$(basename $d); prop=$(python3 -c "import json;print(json.load(open('$d/meta.json'))['property'])")
   [ -n "$1" ] && [ "$1" != "$id" ] && [ "$1" != "$prop" ] && continue
-  git -C /repo apply $d/patch.diff || { echo "$id: patch does not apply"; continue; }
+  # patch_rebased.diff: the same change re-expressed on the current tree when a later fix: commit touched the same lines
+  pf=/verif/${d}patch.diff; [ -f /verif/${d}patch_rebased.diff ] && pf=/verif/${d}patch_rebased.diff
+  git -C /repo apply $pf 2>/tmp/run_seeded.err || { echo "$id ($prop): patch does not apply to the current tree"; continue; }
   out=$(./check $prop --tier quick 2>&1); rc=$?
   git -C /repo checkout -- .
   n=$(echo "$out" | grep -c "^VIOLATION")
